@@ -414,6 +414,18 @@ Example C15_private_net_iff_nonvacuous :
   = [true; true; true; false; false; false; false].
 Proof. vm_compute. reflexivity. Qed.
 
+(* in particular the IPv6 loopback, link-local (fe80::/10), unspecified and global addresses are not
+   "internal": nothing outside fc00::/7 is, unless it is a v4-mapped private address *)
+Theorem C15_v6_outside_fc00_not_internal :
+  forall s ip b0 r, parse_ip s = Some ip -> ip = b0 :: r -> to4 ip = None -> ~ (252 <= b0 <= 253) ->
+  in_private_net ip = false.
+Proof. exact v6_outside_fc00_not_internal. Qed.
+Print Assumptions C15_v6_outside_fc00_not_internal.
+
+Example C15_v6_outside_fc00_not_internal_nonvacuous :
+  exists ip r, parse_ip (bs "fe80::1") = Some ip /\ ip = 254 :: r /\ to4 ip = None.
+Proof. eexists. eexists. split; [vm_compute; reflexivity|]. split; reflexivity. Qed.
+
 Theorem C15_empty_host_never_qualifies :
   forall s, host s = [] -> od (tls s) = false -> qualifies s = false.
 Proof. exact empty_host_never_qualifies. Qed.
